@@ -220,6 +220,14 @@ def p_range(I, n, pos, kw):
         lo, hi = Sc(sym.ZERO), pos[0]
     elif len(pos) == 2:
         lo, hi = pos
+    elif len(pos) == 3 and all(isinstance(x, Sc) and x.e is not None for x in pos):
+        lo, hi, st = pos
+        if st.e == sym.ONE:
+            return ObjV(None, dict(lo=lo, hi=hi), tag="range")
+        # a strided range (chunked processing): positions lo, lo+step, ... below hi; step must be known positive
+        if st.e[0] == "num" and st.e[1] > 0 and float(st.e[1]).is_integer() or (st.e[0] == "sym" and st.e[1].startswith("$chunk")):
+            return ObjV(None, dict(lo=lo, hi=hi, step=st), tag="strided-range")
+        return I.unknown("range-step", n)
     else:
         return I.unknown("range-step", n)
     if not (isinstance(lo, Sc) and isinstance(hi, Sc)):
@@ -322,6 +330,25 @@ def p_zip_longest(I, n, pos, kw):
         m = max(len(x.items) for x in pos)
         return Seq([Seq([x.items[k] if k < len(x.items) else fill for x in pos], "tuple") for k in range(m)], "list")
     return I.unknown("prim:itertools.zip_longest", n)
+
+
+@prim("builtins.slice")
+def p_slice(I, n, pos, kw):
+    """slice(stop) / slice(start, stop[, step]) as a value: used as an index it is the slice it spells"""
+    def b(v):
+        if v is None or isinstance(v, NoneV):
+            return None
+        return v.e if isinstance(v, Sc) and v.e is not None else False
+    if len(pos) == 1:
+        parts = [None, b(pos[0]), None]
+    elif len(pos) in (2, 3):
+        parts = [b(pos[0]), b(pos[1]), b(pos[2]) if len(pos) == 3 else None]
+    else:
+        return I.unknown("prim:builtins.slice", n)
+    if any(x is False for x in parts):
+        return I.unknown("prim:builtins.slice", n)
+    item = ("full",) if all(x is None for x in parts) else ("slice", parts[0], parts[1], parts[2])
+    return ObjV(None, dict(items=[item]), tag="slice")
 
 
 @prim("builtins.iter")
